@@ -36,6 +36,7 @@ type c10Case struct {
 	Operation  string          `json:"operation"`
 	Variables  json.RawMessage `json:"variables"`
 	OrderSeeds []int64         `json:"orderSeeds"`
+	HardFail   string          `json:"hardFailSubgraph,omitempty"` // every request to this subgraph fails hard (c10h.go)
 }
 
 // the recording writer: one frame per Flush
@@ -259,6 +260,9 @@ func c10Check(run *Run, c *c10Case, worker int) {
 			}
 		}
 	}
+	if c.HardFail != "" {
+		c10CheckHardFailure(run, c, e, mkSession)
+	}
 	orders := map[string]bool{}
 	for k, seed := range c.OrderSeeds {
 		sess := mkSession()
@@ -408,7 +412,7 @@ func c10Check(run *Run, c *c10Case, worker int) {
 func runC10(run *Run, replay string) Spec {
 	spec := Spec{
 		Level:       "translation_validation",
-		Rule:        "generated operations over layout L1 with @defer on inline fragments and spreads (nested, sibling, in lists, under interface and union members, at the root, labelled, if: literal/variable) × 3 completion orders of the subgraph requests (seeded delays): the recorded frames are accepted by the Lean acceptor Defer.accept, Defer.reconstruct of the frames equals the data of the same operation with every @defer removed (same engine), @defer(if:false) yields one payload with that data, writer calls never overlap, nothing after Complete, the stream ends; in addition Resolvable.isDeferAncestor is run (build-tag hook) on generated defer trees with random valid delivery orders: it never admits a group that has not been delivered before the group being rendered, and it answers like the Lean model Proto.DeferTree.anc. non-trivial = operations whose stream has ≥ 2 frames; distinct = distinct (operation, universe)",
+		Rule:        "generated operations over layout L1 with @defer on inline fragments and spreads (nested, sibling, in lists, under interface and union members, at the root, labelled, if: literal/variable) × 3 completion orders of the subgraph requests (seeded delays): the recorded frames are accepted by the Lean acceptor Defer.accept, Defer.reconstruct of the frames equals the data of the same operation with every @defer removed (same engine), @defer(if:false) yields one payload with that data, writer calls never overlap, nothing after Complete, the stream ends; in addition Resolvable.isDeferAncestor is run (build-tag hook) on generated defer trees with random valid delivery orders: it never admits a group that has not been delivered before the group being rendered, and it answers like the Lean model Proto.DeferTree.anc; for a third of the operations every request to one subgraph additionally fails hard (a pre-fetch rate limiter returns an error) and the stream discipline alone is judged (ends, writer never entered twice at once, nothing after Complete, every frame one JSON object). non-trivial = operations whose stream has ≥ 2 frames; distinct = distinct (operation, universe)",
 		TrustedBase: []string{"the engine without @defer as the data reference (validated against the Lean reference executor by C01)", "the harness' semantic subgraphs, recording writer and operation generator", "JSON decoding of frames in the Lean driver"},
 		Assumptions: []string{"completion orders are induced by seeded per-request delays, not enumerated", "when the undeferred response or any frame carries errors only the stream discipline is checked, not data equality (non-null propagation legitimately differs per payload)"},
 	}
@@ -486,6 +490,9 @@ func runC10(run *Run, replay string) Spec {
 					continue
 				}
 				c := &c10Case{Layout: "L1", Universe: u, Operation: op, Variables: vars, OrderSeeds: []int64{r.Int63(), r.Int63(), r.Int63()}}
+				if subs := layouts["L1"].Subs; r.Intn(3) == 0 {
+					c.HardFail = subs[r.Intn(len(subs))].Name
+				}
 				run.SetCurrent(w, c)
 				c10Check(run, c, w)
 				for f := range feats {
